@@ -16,6 +16,16 @@ var curT *testing.T
 // (0: no run in progress); the worker's watchdog reads it.
 var runStart atomic.Int64
 
+// deadlineNS is the wall-clock deadline of the worker's exploration (0: none).
+var deadlineNS atomic.Int64
+
+// PastDeadline lets long multi-evaluation runs stop early (what was evaluated
+// so far is still reported) instead of overrunning the budget.
+func PastDeadline() bool {
+	d := deadlineNS.Load()
+	return d != 0 && time.Now().UnixNano() > d
+}
+
 // Tick tells the watchdog that a long run is still making progress.
 func Tick() {
 	if runStart.Load() != 0 {
